@@ -19,6 +19,7 @@ RAW = {
     "r42": "42", "rneg7": "-7", "r007": "007", "r0": "0", "ryes": "yes", "rtrue": "true", "rno": "no", "rfalse": "false",
     "rYes": "Yes", "rTrue": "True", "rFALSE": "FALSE", "rempty": "", "rhello": "hello", "rspaces": "hello big world",
     "rjson": '{"a": 1}', "rinfo": "info", "r4x": "4x", "rfloat": "1.5", "rmerged": "merged", "rdebug": "debug",
+    "rn": "n", "ry": "y", "rals": "als", "rru": "ru", "rnone": "none", "ryesno": "yesno",
 }
 WF = "from gwf import Workflow\ngwf = Workflow()\ngwf.target('one', inputs=[], outputs=['o1']) << 'echo one'\n"
 
